@@ -7183,7 +7183,10 @@ fn widen_folded_breaks(decoded: &str, explicit_indent_used: bool) -> Cow<'_, str
             result.push_str(&decoded[run_start..i - 1]);
         } else {
             result.push_str(&decoded[run_start..i]);
-            if !is_trailing_run {
+            // A leading run (`run_start == 0`: the scalar starts with line
+            // breaks) has no text line before it to fold into: each break
+            // is one blank line as it stands, nothing to widen.
+            if !is_trailing_run && run_start != 0 {
                 let next_more_indented = matches!(bytes.get(i), Some(b' ' | b'\t'));
                 if !prev_more_indented && !next_more_indented {
                     result.push('\n');
